@@ -30,6 +30,18 @@ Oracles
    progress;
  * bounded liveness: after the client finally opens every window with
    WINDOW_UPDATE frames, all streams complete within a step budget.
+
+Signatures seen on twisted 24.7.0.post0 (all reproduced outside the harness;
+docs/C29_candidate_fix.patch makes the check hold):
+ A  server-raised:send-loop:FlowControlError     negative window after SETTINGS lowered INITIAL_WINDOW_SIZE: frameData[:negative]
+                                                 slices the wrong way, h2 refuses send_data, the send loop dies, bytes are lost
+ B  no-resume:after-wu:parked:queued-data        _handleWindowUpdate unblocks the stream but never fires _sendingDeferred
+ C  no-resume:after-settings:*                   a SETTINGS that raises INITIAL_WINDOW_SIZE (RemoteSettingsChanged) is ignored
+ D  server-raised:app:StreamIDTooLowError, server-raised:send-loop:StreamClosedError, server-raised:dataReceived:StreamClosedError
+                                                 RST_STREAM in the same segment as earlier frames of the stream: h2 has closed (or
+                                                 forgotten) the stream before Twisted handles the earlier events
+ E  server-raised:dataReceived:RuntimeError      connection-level WINDOW_UPDATE resumes a producer that finishes its request:
+                                                 self.streams changes size while _handleWindowUpdate iterates over it
 """
 import os
 import struct
@@ -68,16 +80,29 @@ COMPONENTS = {
              "manager is relaxed to accept a zero-length DATA frame on a negative window, which RFC 7540 6.9.1 allows and h2 rejects)",
              "termination predicate of the global Cooperator (wall-clock 10 ms slice replaced by one work unit per tick)"],
 }
-RULE = ("run = 1..8 GET streams against one H2Connection; per stream a body of 0 B..~2.5 windows written in tape-chosen chunks "
-        "(direct writes / push producer / pull producer); 10..160 tape-chosen events among: network move (with cut), send-loop tick, "
-        "new request, application write/finish, WINDOW_UPDATE (stream or connection), SETTINGS (INITIAL_WINDOW_SIZE 0..300000, "
-        "MAX_FRAME_SIZE), PRIORITY, RST_STREAM, quiescence check; then windows are opened and the rest must drain within a budget. "
+RULE = ("run = 1..8 GET streams against one H2Connection (initial INITIAL_WINDOW_SIZE 0..100000, transport high-water mark none..70000); "
+        "per stream a body of 0 B..~2.5 windows (families: around the window, exactly the window, small, medium, 16-100 kB) written in "
+        "tape-chosen chunks (direct writes / push producer, optionally producing inside resumeProducing / pull producer; part of it possibly "
+        "inside process()); 10..160 tape-chosen events among: network move (with cut), send-loop tick (with time passing), new request, "
+        "application write/finish, WINDOW_UPDATE (stream or connection, 1..200000), SETTINGS (INITIAL_WINDOW_SIZE 0..300000 and/or "
+        "MAX_FRAME_SIZE 16384..1000000, one un-ACKed at a time), PRIORITY (weight), RST_STREAM, quiescence check with the resumption oracle; "
+        "then every window is opened by WINDOW_UPDATE and the rest must drain within a round budget. Knobs drawn per run switch off, "
+        "in a fraction of runs, the preconditions of the defects found (SETTINGS lowering / raising the window, early or any RST_STREAM, "
+        "producers that produce inside resumeProducing, the resumption oracle) so that every clause is also exercised on full-length runs. "
         "non-trivial = at least one stream was blocked on a zero/negative flow-control window while it had data queued AND the wire was cut at least once")
+LEVEL_NOTE = ("inputs (stream sets, body sizes, chunking) are sampled by a seeded grammar and schedules (interleaving of application writes, "
+              "send-loop turns, client frames, segmentation, back-pressure) by the tape: exploration, not enumeration; the `priority` dependency "
+              "is a vendored stub, so nothing is claimed about priority policy")
 ASSUMPTIONS = [
     "the `priority` dependency is the vendored stub; PRIORITY frames only change weights (no dependencies), since the statement does not quantify over priorities",
     "requests are GET without body; the client never violates the protocol",
     "applications stop writing when notifyFinish reports the stream lost",
     "SETTINGS_MAX_FRAME_SIZE cannot go below 16384 (RFC 7540 6.5.2), so 'tiny' values are only explored for INITIAL_WINDOW_SIZE",
+    "at most one un-ACKed SETTINGS frame of the client is in flight (the h2 client cannot attribute ACKs otherwise and would be a wrong referee)",
+    "a frame that the server sends on a stream after it has processed the peer's RST_STREAM for it (buffered HEADERS flushed late) gets no verdict: "
+    "the statement is silent about it (counted in probe frame_after_rst_received)",
+    "server-raised: an exception escaping from H2Connection.dataReceived, from its send loop or from Request.write/finish is a violation, because on a "
+    "real reactor it tears the connection down or kills the send loop, so no stream of the connection can complete",
 ]
 RUN_WALL_LIMIT_S = 30
 
@@ -496,7 +521,7 @@ class Harness:
         hwm = sim.draw_choice([None, 0, 1, 100, 5000, 70000], "hwm")
         family = sim.draw_choice(["window", "small", "medium", "big", "exact"], "family")
         cfg = {"nstreams": n, "init_iws": init_iws, "hwm": hwm, "family": family,
-               "neg_windows": sim.draw_bool(0.7, "neg_windows"),       # SETTINGS may shrink below bytes already sent
+               "settings_shrink": sim.draw_bool(0.7, "settings_shrink"),   # SETTINGS may lower INITIAL_WINDOW_SIZE (windows can go negative)
                "settings_open": sim.draw_bool(0.7, "settings_open"),   # SETTINGS may raise INITIAL_WINDOW_SIZE
                "eager": sim.draw_bool(0.5, "eager"),                   # push producers write synchronously inside resumeProducing
                # RST_STREAM from the client: never / only after the response headers arrived / at any time
@@ -696,7 +721,7 @@ class Harness:
             choices = list(IWS_CHOICES)
             if not self.cfg["settings_open"]:
                 choices = [v for v in choices if v <= self.cur_iws]
-            if not self.cfg["neg_windows"]:
+            if not self.cfg["settings_shrink"]:
                 # never shrink below what any open stream may already have consumed: only allow growth or equality
                 choices = [v for v in choices if v >= self.cur_iws]
             if choices:
@@ -844,7 +869,7 @@ class Harness:
             if app.requested and not app.client_reset:
                 left = len(app.body) - app.pos
                 frames += app.nwrites + (left + app.maxchunk - 1) // max(1, app.maxchunk) + len(app.body) // 16384 + 4
-        budget = 60 + 3 * frames
+        budget = 200 + 8 * frames
         rounds = 0
         while not self.all_done():
             rounds += 1
@@ -874,6 +899,7 @@ class Harness:
                 if self.due():
                     self.tick()
         sim.probe("drain_rounds", rounds)
+        self.drain_used = (rounds, budget)
         self.settle(check=False)
 
     def final_checks(self):
@@ -965,4 +991,21 @@ def cleanup(sim):
             h.cleanup()
 
 
-MUTANTS = []
+MUTANTS = [
+    # all run with tools/mutate.py on a scratch copy that already carries docs/C29_candidate_fix.patch (the unchanged tree violates the
+    # property, see the report), quick tier, exit code 1 = caught
+    "M1 _handleWindowUpdate: stream branch no longer unblocks the stream in the priority tree -> caught (no-resume:after-wu:*:queued-data; "
+    "on the unfixed tree it also shows as no-resume:after-wu:running:queued-data, distinct from the listed defect's ...:parked:...)",
+    "M2 _sendPrioritisedData: maxFrameSize ignores max_outbound_frame_size -> caught (server-raised:send-loop:FrameTooLargeError)",
+    "M3 _sendPrioritisedData: excess data re-queued with append() instead of appendleft() -> caught (body-order / body-complete, frame log)",
+    "M4 _sendPrioritisedData: maxFrameSize ignores the flow-control window -> caught (server-raised:send-loop:FlowControlError; h2 refuses before any overrun reaches the wire)",
+    "M5 H2Stream.windowUpdated: producer.resumeProducing() removed -> caught (no-resume:after-wu:*:paused-producer, liveness)",
+    "M9 _sendPrioritisedData: excessData = frameData[maxFrameSize + 1:] (one byte dropped at each split) -> caught (body-order)",
+    "M11 endRequest: priority.unblock removed -> caught (no-resume:*:end-stream-pending, liveness)",
+    "M12 connection-level window update no longer calls stream.windowUpdated() -> caught (no-resume:*:paused-producer)",
+    "M13 _flushBufferedControlData: pop() instead of popleft() (buffered control frames leave in reverse order) -> caught (client-rejected:ProtocolError, HPACK) "
+    "after per-stream response headers were added to the workload; survived before",
+    "M18 _sendPrioritisedData: stream with empty queue never blocked -> caught (server-raised:send-loop:IndexError)",
+    "M19 _tryToWriteControlData: always writes directly (ignores transport back-pressure for control frames) -> survived; back-pressure towards the "
+    "transport is outside the statement",
+]
